@@ -549,11 +549,14 @@ public:
 			}
 			else if constexpr (std::is_integral_v<T>)
 			{
-				if constexpr (std::is_same_v<T, int64_t>) {
+				if constexpr (std::is_signed_v<T> && sizeof(T) > sizeof(int)) {
 					mRootJson.SetInt64(value);
 				}
-				else if constexpr (std::is_same_v<T, uint64_t>) {
+				else if constexpr (std::is_unsigned_v<T> && sizeof(T) > sizeof(unsigned)) {
 					mRootJson.SetUint64(value);
+				}
+				else if constexpr (std::is_unsigned_v<T>) {
+					mRootJson.SetUint(value);
 				}
 				else {
 					mRootJson.SetInt(value);
